@@ -26,9 +26,9 @@ type c11Layout struct {
 func c11Layouts() []c11Layout {
 	act := xorSeed().Nodes[3].Act
 	return []c11Layout{
-		{"sensors-first", []NodeSpec{{1, network.BiasNeuron, 0, 1}, {2, network.InputNeuron, 0, 0}, {3, network.HiddenNeuron, 11, 1}, {4, network.OutputNeuron, act, 0}}},
-		{"late-sensors", []NodeSpec{{1, network.InputNeuron, 0, 1}, {2, network.OutputNeuron, act, 0}, {3, network.HiddenNeuron, 14, 1}, {4, network.InputNeuron, 0, 0}, {5, network.BiasNeuron, 0, 1}}},
-		{"two-outputs", []NodeSpec{{1, network.InputNeuron, 0, 1}, {2, network.BiasNeuron, 0, 0}, {3, network.OutputNeuron, act, 1}, {4, network.OutputNeuron, 13, 0}, {5, network.HiddenNeuron, act, 0}}},
+		{"sensors-first", []NodeSpec{{1, network.BiasNeuron, 17, 1}, {2, network.InputNeuron, 17, 0}, {3, network.HiddenNeuron, 11, 1}, {4, network.OutputNeuron, act, 0}}},
+		{"late-sensors", []NodeSpec{{1, network.InputNeuron, 17, 1}, {2, network.OutputNeuron, act, 0}, {3, network.HiddenNeuron, 14, 1}, {4, network.InputNeuron, 17, 0}, {5, network.BiasNeuron, 17, 1}}},
+		{"two-outputs", []NodeSpec{{1, network.InputNeuron, 17, 1}, {2, network.BiasNeuron, 17, 0}, {3, network.OutputNeuron, act, 1}, {4, network.OutputNeuron, 13, 0}, {5, network.HiddenNeuron, act, 0}}},
 	}
 }
 
